@@ -255,7 +255,11 @@ def pytest_runs(chk, rnd, sel_rows, ntable, nrich):
     def one(i):
         structure, functions, names, tagged, check = tasks[i]
         return pl.tag_run(os.path.join(root, 'p%d' % i), structure, functions, names, tagged, check,
-                          extra=(['-v'] if i % 5 == 0 else ['-x'] if i % 7 == 0 else []))
+                          extra=(['-v'] if i % 5 == 0 else ['-x'] if i % 7 == 0 else []), twin=twin_of(i))
+
+    def twin_of(i):
+        # a second module with classes of the same names (no functions, no node ids: plain whole-project runs)
+        return i % 4 == 1 and not tasks[i][1] and not tasks[i][2]
     with ThreadPoolExecutor(14) as ex:
         results = list(ex.map(one, range(len(tasks))))
     events = []
@@ -263,6 +267,8 @@ def pytest_runs(chk, rnd, sel_rows, ntable, nrich):
         module = effective(structure) + [{'cls': 'fn_' + f['name'], 'ctag': False, 'tests': [{'name': f['name'], 'mtag': f['mtag']}]}
                                           for f in functions]
         fnames = {f['name'] for f in functions}
+        if twin_of(tid):
+            module = module + [dict(c, cls=c['cls'] + '_twin') for c in effective(structure)]
         events.append({'tid': tid, 'ev': 'PyRun', 'module': module, 'names': [('fn_' + n) if n in fnames else n for n in names],
                        'tagged': bool(tagged), 'check': bool(check), 'executed': got['executed'], 'listed': got['listed'],
                        'error': got['error'], 'argv': [rl.str2tok(a) for a in ['pytest'] + got['argv']]})
